@@ -20,8 +20,31 @@ PROPERTY = "C10"
 READY = True
 STATEFUL = True
 PARALLEL = False
-THEOREMS = ["C10.cfg_ok", "C10.key_by_object", "C10.reachable_inv", "C10.layout_indep", "C10.history_free",
-            "C10.same_description_same_output", "C10.nocolor_no_esc", "C10.strip_eq", "C10.lines_eq_whole"]
+RULE = ("histories of 3-16 operations over 1-5 configurations (created, dropped with gc.collect(), made global), 1-2 enum "
+        "field types and 2-4 printable objects of all five kinds (pretty-printed data, tables incl. enum columns / limits / "
+        "break lines / multi-line titles / truncation, record formats, git history reports over stub data, console help), "
+        "each rendered coloured, without colours, line by line (before or after the whole text); streams: random, `reuse` "
+        "(an enum table under a configuration that is then discarded, then under a new one, with allocation pressure that "
+        "hands the freed palette addresses to the new palettes), `late` (descriptions that wait for ids registered by palette "
+        "classes), `late-aba`. non-trivial = at least two renderings with a configuration change in between; distinct by "
+        "protocol text")
+TRUSTED = ["shape extraction: a fresh copy of the object is rendered with tagging palettes (harness/c10.py:_mk_probe); the "
+           "model never sees the layout code of PrettyPrinter / PPTable / PPRecordFmt / ReportFormatter / HDocItem",
+           "the package's own description parser (_parse_init_str) and SGR element maker (_make_seq_element) feed the "
+           "protocol (their correctness is C14 / C09)",
+           "CPython 3.12 pymalloc behaviour is used only to provoke address reuse, never for a verdict"]
+ASSUMPTIONS = ["content has no ESC character (hypothesis of C10.strip_eq / nocolor_no_esc; generators never emit one)",
+               "C10.history_free for coloured renderings: every description of the configuration was resolved at creation "
+               "(`closed`) and no accessor used waits for another palette class (`tagStable`: false only for number / "
+               "constant cells in table titles, which use TitlePalette with RecordPalette's ids; counted in the evidence "
+               "as render:with-accessor-waiting-for-another-class); the dangling case is the known finding late_resolution, kept as a "
+               "checked counter-example in Props/C10.lean",
+               "circular descriptions that only appear when a palette class registers its defaults (e.g. {'WARN': "
+               "'TABLE.WARN'}: every table rendering raises AssertionError) are outside the model (reply OUT-OF-FUEL) and "
+               "are not generated"]
+THEOREMS = ["C10.cfg_ok", "C10.key_by_object", "C10.driver_alloc_valid", "C10.reachable_inv", "C10.layout_indep",
+            "C10.history_free", "C10.history_free_steady", "C10.same_description_same_output", "C10.nocolor_no_esc", "C10.strip_eq",
+            "C10.lines_eq_whole", "C10.gp_synced"]
 
 ESC = "\x1b"
 
@@ -315,7 +338,7 @@ class _Obj:
     def observe_raw(self, conf, mode):
         """what the real objects print, as python strings (encoded into a protocol reply by `_reply`)"""
         from ak.hdoc import HCommand
-        nc = mode in ("n", "m")
+        nc = mode in ("n", "m", "M")
         if self.kind == "hcmd":
             return (HCommand()._make_help_text(self.func),)
         res = self.result(conf, nc)
@@ -325,6 +348,9 @@ class _Obj:
             return (str(res),)
         if mode == "n":
             return (str(res), res.plain_text())
+        if mode in ("L", "M"):          # the whole text first, then the same result line by line
+            whole = str(res)
+            return (whole, [_line_str(l) for l in res])
         lines = [_line_str(l) for l in res]
         return (str(res), lines)
 
@@ -612,6 +638,7 @@ def _replay(case, before=None, after=None):
     confs, enums, objs = {}, {}, {}
     spy = _spy_conf_class()
     _calibrate()
+    gc.freeze()       # what exists now is not this history's garbage: keeps the forced collections cheap
     failed = set()        # configurations whose constructor raised: what refers to them is skipped
     out = []
     for i, op in enumerate(case["ops"]):
@@ -661,8 +688,12 @@ def _replay(case, before=None, after=None):
             elif op[0] == "gp":
                 acc = list(color.GlobalPalette._LOCAL_SYNTAX)[op[1]]
                 out.append("ok " + enc_str(str(getattr(color.global_palette, acc)("x"))))
+                if after is not None:
+                    after(i, color.get_global_colors_config())
             elif op[0] == "gpi":
                 out.append("ok " + enc_str(str(color.global_palette[op[1]]("x"))))
+                if after is not None:
+                    after(i, color.get_global_colors_config())
             else:
                 out.append("bad-op")
         except Exception as e:
@@ -768,6 +799,9 @@ def _reference(case, i, descr, nc, mode):
     return obj.observe(conf, mode)
 
 
+_LATE_REPORTED = []
+
+
 def oracle(case, replies):
     import ak.color as color
     info = {}
@@ -776,6 +810,8 @@ def oracle(case, replies):
         info[i] = [_flat_descr(conf), None, conf.no_color]
 
     def after(i, conf):
+        if i not in info:
+            info[i] = [None, None, conf.no_color]
         info[i][1] = _flat_descr(conf)
     late = None
     try:
@@ -786,6 +822,11 @@ def oracle(case, replies):
                 # the synced palette shows the global configuration in force
                 if not rep.startswith("ok "):
                     return "gp-raises: %s -> %s" % (op, rep)
+                _reset()
+                fresh = color.ColorsConfig(dict(info[i][1]), no_color=info[i][2])
+                synt = op[1] if op[0] == "gpi" else list(color.GlobalPalette._LOCAL_SYNTAX.values())[op[1]]
+                if rep != "ok " + enc_str(str(fresh.get_color(synt)("x"))):
+                    return "synced: global_palette %s does not show the colour of the global configuration in force" % (op[1],)
                 continue
             if op[0] != "render" or rep == "skip":
                 continue
@@ -794,7 +835,7 @@ def oracle(case, replies):
             if not rep.startswith("ok ") and rep != "ok":
                 return "render-raises: object %s (%s) under configuration %s mode %s -> %s" % (o, kind, k, mode, rep)
             f = _fields(rep)
-            nc = mode in ("n", "m")
+            nc = mode in ("n", "m", "M")
             # (a) colours never change the layout; no-colour output has no escape character
             if kind == "hcmd":
                 # the console help has no no-colour form: compare with the rendering under a no-colour configuration
@@ -813,7 +854,7 @@ def oracle(case, replies):
             if mode == "n" and kind not in ("rec", "hcmd") and f[0] != f[1]:
                 return "nocolor-esc: str() and plain_text() of the no-colour result of object %s differ" % o
             # (c) line by line = whole
-            if mode in ("l", "m") and kind not in ("rec", "hcmd"):
+            if mode in ("l", "m", "L", "M") and kind not in ("rec", "hcmd"):
                 n = int(rep.split()[2])
                 lines = f[2:2 + n] if n else []
                 if _cells(f[0]) != _cells("\n".join(lines)):
@@ -831,8 +872,16 @@ def oracle(case, replies):
                     late = late or "late: " + msg
                 else:
                     return "history: " + msg
+        if late is not None:
+            # the known finding is reported for a handful of histories only, so that it cannot crowd other
+            # failures out of the failures core.py looks at; shrink candidates inherit the permission
+            meta = case.setdefault("meta", {})
+            if not meta.get("late_ok"):
+                if len(_LATE_REPORTED) >= 8:
+                    return None
+                _LATE_REPORTED.append(1)
+                meta["late_ok"] = True
         return late
-        return None
     finally:
         _reset()
 
@@ -953,9 +1002,13 @@ def _rand_conf(rng, late):
             if rng.random() < 0.05:
                 parents = ["NOSUCH"]
             items[sid] = _rand_descr(rng, parents)
-        if late and not any(_late_resolution({"confs": {"x": {"items": items}}}) for _ in [0]):
-            sid = rng.choice([i for i in _BUILTIN_IDS + _CLASS_IDS])
-            items[sid] = rng.choice([c for c in _CLASS_IDS if c != sid])
+        if late:
+            # a visible syntax that waits for an id which only a palette class registers
+            for _ in range(rng.choice([1, 1, 2])):
+                sid = rng.choice(["TEXT", "NUMBER", "KEYWORD", "NAME", "WARN", "TABLE.BORDER", "TABLE.HEADER",
+                                  "RECORD.NUMBER", "RECORD.COL_TITLE", "HDOC.FUNC_NAME", "GHIST.REPO"])
+                target = rng.choice([c for c in _CLASS_IDS if c != sid and c not in items])
+                items[sid] = target + rng.choice(["", "", ":bold", ":/BLUE"])
         try:
             for v in items.values():
                 _descr_token(v)
@@ -1177,10 +1230,66 @@ def _modes(spec, rng):
         return "c"
     if spec["kind"] == "rec":
         return rng.choice("ccn")
-    return rng.choice("cccnlm")
+    return rng.choice("cccnlmLM")
+
+
+_ABA_TARGETS = {"TABLE": ["TABLE.BORDER", "TABLE.WARN", "TABLE.HEADER"], "RECORD": ["RECORD.TITLE", "RECORD.COL_TITLE", "RECORD.NUMBER"],
+                "GHIST": ["GHIST.REPO", "GHIST.BRANCH", "GHIST.HASH", "GHIST.VERSION"], "HDOC": ["HDOC.ATTR", "HDOC.FUNC_NAME", "HDOC.TAG"]}
+
+
+def _gen_aba(rng):
+    """a visible syntax waits for an id of palette class P: render A (shows the syntax), render B (registers P),
+    render A again; the synced global palette is looked at on the way when the configuration is the global one"""
+    prefix = rng.choice(sorted(_ABA_TARGETS))
+    sid = rng.choice(["TEXT", "NUMBER", "KEYWORD", "NAME"])
+    target = rng.choice(_ABA_TARGETS[prefix])
+    items = {sid: target + rng.choice(["", ":bold", ":/BLUE"])}
+    if rng.random() < 0.6:                       # the class finds one of its ids already defined
+        sib = rng.choice([t for t in _ABA_TARGETS[prefix] if t != target])
+        items[sib] = _rand_color(rng) or "RED"
+    for extra in rng.sample(_BUILTIN_IDS, rng.randrange(0, 3)):
+        if extra != sid:
+            items.setdefault(extra, _rand_color(rng))
+    if _cyclic(_full_map(items)):
+        return None
+    enums = {"0": _rand_enum(rng)}
+    a = {"kind": "pp", "json": False, "value": {"d": [["k", [1, None, "s", 2.5]], ["n", 7]]}}
+    if prefix in ("TABLE", "RECORD"):
+        b = _rand_table(rng, ["0"], enums)
+        if not b["records"]:
+            b["records"] = [[1] * len(b["fields"])]
+            b.pop("types", None)
+    elif prefix == "GHIST":
+        b = _rand_ghist(rng)
+    else:
+        b = _rand_hcmd(rng)
+    if not _shape_ok(b, enums):
+        return None
+    use_global = prefix == "HDOC" or rng.random() < 0.4
+    k = "g" if use_global else "1"
+    gp_acc = {"TEXT": 0, "NAME": 1, "KEYWORD": 2}.get(sid)
+    ops = [["enum", "0"], ["conf", "1"]]
+    if use_global:
+        ops.append(["setglobal", "1"])
+    ops.append(["render", "0", k, rng.choice("cl")])
+    if use_global:
+        ops.append(["gp", gp_acc] if gp_acc is not None else ["gpi", sid])
+    ops.append(["render", "1", k, "c" if b["kind"] == "hcmd" else rng.choice("cnL")])
+    if use_global:
+        ops.append(["gp", gp_acc] if gp_acc is not None else ["gpi", sid])
+    ops.append(["render", "0", k, "c"])
+    case = {"ops": ops, "confs": {"1": {"nc": 0, "items": items}}, "enums": enums, "objs": {"0": a, "1": b},
+            "meta": {"kind": "late-aba"}}
+    return _finish(case)
 
 
 def _gen_history(rng, tier, late, pattern):
+    if pattern == "aba":
+        for _ in range(20):
+            c = _gen_aba(rng)
+            if c is not None:
+                return c
+        pattern = "random"
     enums = {str(e): _rand_enum(rng) for e in range(rng.randrange(1, 3))}
     enum_ids = sorted(enums)
     objs = {}
@@ -1269,10 +1378,10 @@ def _gen_history(rng, tier, late, pattern):
 
 
 def gen_cases(rng, tier):
-    n = 260 if tier == "quick" else 6000
+    n = 600 if tier == "quick" else 9000
     for i in range(n):
         late = i % 5 == 4
-        pattern = "reuse" if i % 3 == 0 else "random"
+        pattern = "reuse" if i % 3 == 0 else "aba" if i % 10 == 7 else "random"
         yield _gen_history(rng, tier, late, pattern)
 
 
@@ -1326,6 +1435,8 @@ def shrink(case):
         flat = ColorsConfig._flatten_dict(c["items"])
         for sid in flat:
             rest = {x: v for x, v in flat.items() if x != sid}
+            if _cyclic(_full_map(rest)):
+                continue        # removing an item can expose a circular default: outside the generated domain
             cand = copy.deepcopy(case)
             cand["confs"][k]["items"] = rest
             try:
@@ -1367,8 +1478,34 @@ def nontrivial(case, replies):
     return kinds.count("render") >= 2 and (kinds.count("conf") >= 2 or "drop" in kinds or "setglobal" in kinds)
 
 
+_STABLE = None
+
+
+def _unstable_tags(line):
+    """tags of a render line whose accessor waits for another palette class (hypothesis `tagStable` of C10.history_free)"""
+    global _STABLE
+    from ak.color import ColorsConfig
+    if _STABLE is None:
+        classes = _classes()
+        builtin = set(ColorsConfig._flatten_dict(ColorsConfig.BUILT_IN_CONFIG))
+        dfl = [set(ColorsConfig._flatten_dict(c.SYNTAX_DEFAULTS)) if c.SYNTAX_DEFAULTS else set() for _, c in classes]
+        alld = set().union(*dfl)
+        _STABLE = {}
+        for ci, (_, c) in enumerate(classes):
+            for ai, x in enumerate(c._LOCAL_SYNTAX.values()):
+                _STABLE[(ci, ai)] = x in builtin or x in dfl[ci] or x not in alld
+    bad = set()
+    for m in re.finditer(r"[;/ ](?:c|e\d+\.\d+\.)(\d+)\.(\d+)=", line):
+        if not _STABLE.get((int(m.group(1)), int(m.group(2))), True):
+            bad.add((int(m.group(1)), int(m.group(2))))
+    return bad
+
+
 def tags(case, replies):
     yield case.get("meta", {}).get("kind", "?")
+    for line in case["lines"]:
+        if line.startswith("render ") and _unstable_tags(line):
+            yield "render:with-accessor-waiting-for-another-class"
     for op in case["ops"]:
         if op[0] == "render":
             yield "render:%s:%s" % (case["objs"][op[1]]["kind"], op[3])
@@ -1379,3 +1516,61 @@ def tags(case, replies):
     for r in replies:
         if r.startswith("err"):
             yield "reply:" + r
+
+
+LEVEL_TEXT = ("Kernel-checked for all histories (any operations, any allocator returning unused addresses, any closed keep-set "
+              "of the collector) on the palette state machine whose class table is regenerated from the source on every run: "
+              "layout_indep (same visible characters whatever the colours/state), nocolor_no_esc, strip_eq (strip_colors of the "
+              "coloured text = no-colour text, ESC-free content), lines_eq_whole, and history_free / "
+              "same_description_same_output (a rendering equals the shape painted by a pure function of the configuration's "
+              "description: always without colours; with colours for configurations whose descriptions were all resolved "
+              "at creation; and, for every configuration at all (history_free_steady), whenever the rendering does not teach "
+              "the configuration a new syntax id) via the invariant reachable_inv (every cache entry refers to a live palette and holds what would "
+              "be recomputed); key_by_object is re-decided from ak/ppobj.py, so the id()-keyed cache of the pre-fix tree "
+              "breaks the proofs, and its failing history is a checked example. The layout itself (shapes) is not modelled: "
+              "that the real renderings factor through shape + palettes is established by the differential run. Also proved: "
+              "gp_synced (the synced global_palette always shows the global configuration in force) and driver_alloc_valid "
+              "(the driver's allocator is one of the allocators the theorems quantify over).")
+LEVEL_NOTE = ("Correspondence only (not theorems): model = code on the generated histories; shapes come from the real code run "
+              "with tagging palettes; the only renderings outside the history theorems are coloured renderings that register a palette class in "
+              "a configuration with dangling references (known finding late_resolution, checked counter-example in Props/C10.lean). Trusted: Lean kernel (propext, Classical.choice, Quot.sound), translator/adapter/oracle in harness/c10.py.")
+TECHNIQUE = ("Lean 4: explicit heap of palette addresses with adversarial allocator and collector, state invariant proved "
+             "preserved by every operation (~150 lemmas); translator for the palette class table and the enum cache key; "
+             "stateful correspondence check with address-reuse steering; independent oracle (fresh-state re-rendering)")
+
+
+def corpus():
+    """fixed histories: the witnesses of the repaired defect and of the known finding, and the quirks of the
+    no-colour palettes that the model has to follow"""
+    enum = {"values": [[1, "one", "name_good"], [2, "two", "name_warn"]], "missing": None}
+    etable = {"kind": "table", "records": [[1, 1], [2, 2]], "fields": ["a", "st"], "types": {"st": "0"}}
+    table = {"kind": "table", "records": [[1, 2]], "fields": ["x", "y"]}
+    ttable = {"kind": "table", "records": [[1, 2]], "fields": ["x", "y"], "titles": {"x": ["t", 7]}}
+    pp = {"kind": "pp", "value": {"d": [["a", 1]]}}
+    out = []
+    # design_probes/c10_enum_cache_id_reuse.py: enum cells keep the colours of a discarded configuration
+    out.append({"ops": [["enum", "0"], ["conf", "1"], ["render", "0", "1", "c"], ["drop", "1"], ["conf", "2"],
+                        ["render", "0", "2", "c"], ["render", "0", "2", "n"], ["render", "0", "2", "l"]],
+                "confs": {"1": {"nc": 0, "items": {"TEXT": "RED", "WARN": "BLUE", "NAME": "CYAN"}},
+                          "2": {"nc": 0, "items": {"TEXT": "GREEN", "WARN": "YELLOW", "NAME": "MAGENTA"}}},
+                "enums": {"0": enum}, "objs": {"0": etable}, "meta": {"kind": "corpus-reuse"}})
+    # known finding late_resolution: first and second rendering of the same table differ
+    out.append({"ops": [["conf", "1"], ["render", "0", "1", "c"], ["render", "0", "1", "c"]],
+                "confs": {"1": {"nc": 0, "items": {"TABLE.BORDER": "RECORD.TITLE"}}},
+                "enums": {}, "objs": {"0": table}, "meta": {"kind": "corpus-late"}})
+    # the same across objects: each rendering is the pure function of the description in force
+    out.append({"ops": [["conf", "1"], ["render", "1", "1", "c"], ["render", "0", "1", "c"], ["render", "1", "1", "c"]],
+                "confs": {"1": {"nc": 0, "items": {"NUMBER": "TABLE.BORDER"}}},
+                "enums": {}, "objs": {"0": table, "1": pp}, "meta": {"kind": "corpus-late"}})
+    # the per-class no-colour table palette stays bound to the first configuration it saw: the second no-colour table
+    # registers the title palette there and not in configuration 2
+    out.append({"ops": [["conf", "1"], ["conf", "2"], ["render", "0", "1", "n"], ["render", "0", "2", "n"],
+                        ["render", "1", "2", "c"], ["render", "1", "1", "c"], ["render", "0", "2", "c"], ["render", "1", "2", "c"]],
+                "confs": {"1": {"nc": 0, "items": {"NUMBER": "RECORD.TITLE"}}, "2": {"nc": 0, "items": {"NUMBER": "RECORD.TITLE"}}},
+                "enums": {}, "objs": {"0": table, "1": pp}, "meta": {"kind": "corpus-nocolor-binding"}})
+    # a number in a table title uses TitlePalette with RecordPalette's syntax id
+    out.append({"ops": [["conf", "1"], ["render", "0", "1", "c"], ["render", "0", "1", "L"], ["setglobal", "1"], ["gp", 1],
+                        ["render", "0", "g", "m"]],
+                "confs": {"1": {"nc": 0, "items": {"RECORD": {"NUMBER": "RED:bold"}, "NAME": "BLUE/g3"}}},
+                "enums": {}, "objs": {"0": ttable}, "meta": {"kind": "corpus-title-number"}})
+    return [_finish(c) for c in out]
